@@ -57,7 +57,8 @@ EXCLUDED = [
 
 _counter = itertools.count()
 
-OUTS = ["ok", "ok", "ok", "list", "skip", "content", "cpe", "timeout", "crash"]
+OUTS = ["ok", "ok", "ok", "list", "skip", "content", "cpe", "timeout", "crash", "empty_str", "zero", "empty_list"]
+# empty_str / zero / empty_list: the implementation succeeds with a falsy value (an empty listing, "", 0)
 
 
 # ------------------------------------------------------------------------------------------------
@@ -125,6 +126,12 @@ def _value(tag, out):
         return tag
     if out == "list":
         return [tag + "#0", tag + "#1"]
+    if out == "empty_str":
+        return ""
+    if out == "zero":
+        return 0
+    if out == "empty_list":
+        return []
     return None
 
 
@@ -404,7 +411,8 @@ def check_world(case):
                         want_seen = m["value"] if isinstance(m["value"], list) else [m["value"]]
                         if seen != want_seen:
                             raise Violation("parser on point %d was handed %r, expected %r" % (p, seen, want_seen), **ctx)
-                        if parsers[p] not in broker:
+                        if parsers[p] not in broker and want_seen:
+                            # (an empty list hands the parser no element: it has nothing to parse)
                             raise Violation("parser on point %d has no value although the spec is present" % p, **ctx)
                     elif m["mode"] == "absent":
                         if pt in broker:
